@@ -12,6 +12,7 @@ import (
 	"encoding/json"
 	"flag"
 	"fmt"
+	"github.com/boz/kcache"
 	"os"
 	"sync/atomic"
 	"testing"
@@ -78,6 +79,19 @@ func TestEngine(t *testing.T) {
 
 // settle reaches quiescence: every goroutine of the bubble durably blocked, no goroutine merely asleep in a
 // perturbation hook, and no library activity (log calls) during the last slice of virtual time.
+// inflight caps the number of changes issued without waiting for quiescence at EventBufsiz/4 (the bound
+// the properties put on the backlog of a healthy consumer), so that the engines follow a changed buffer size.
+func inflight(n int) int {
+	m := kcache.EventBufsiz / 4
+	if m < 1 {
+		m = 1
+	}
+	if n > m {
+		return m
+	}
+	return n
+}
+
 func settle(hookN *uint64) {
 	for i := 0; i < 500; i++ {
 		synctest.Wait()
